@@ -6498,7 +6498,10 @@ class Indexing(Adapter):
         self.index = index
         self.empty = empty
     def _decode(self, obj, context, path):
-        return obj[self.index]
+        try:
+            return obj[self.index]
+        except IndexError:
+            raise RangeError("expected a list holding index %s, found %d elements" % (self.index, len(obj)), path=path)
     def _encode(self, obj, context, path):
         output = [self.empty] * self.count
         output[self.index] = obj
